@@ -34,7 +34,9 @@ RULE = ('connect: client.connect(MemoryReactorClock, address) for address lists 
         'a crash point strictly between connection and Hello reply, or >=1 call with a timer, or >=1 proxy callback, or '
         'a re-entrant action; distinct = distinct case JSON. Loss histories include calls answered synchronously (inside '
         'transport.write) and a close requested by the application before the transport reports the loss. Address lists mix '
-        'unix:path= and unix:abstract= entries in both orders.')
+        'unix:path= and unix:abstract= entries in both orders. Loss histories contain replies nobody waits for (stale_reply) and end '
+        'with ConnectionLost, ConnectionDone or ConnectionAborted by turns; every second disconnect callback is a bound method of '
+        'an object nothing else refers to.')
 ASSUMPTIONS = ['proxies are kept strongly referenced by the harness (the registry is weak by design)',
                'user callbacks neither raise nor re-enter callRemote']
 
@@ -383,6 +385,11 @@ def _run_loss(case, lose_at):
                     c = live[op[1] % len(live)]
                     c['done'] = True
                     N.deliver(rig.conn, R.encode_variant(c['serial'], 2, 900, {5: c['serial']}))
+            elif k == 'stale_reply':
+                # a reply nobody is waiting for: to a call that already concluded (late, duplicate) or to no call at all
+                gone = [c for c in calls if c['done']]
+                serial = gone[op[1] % len(gone)]['serial'] if gone else 0x7fff0001 + op[1]
+                N.deliver(rig.conn, R.encode_variant(op[1], 2, 906, {5: serial}, 's', ['stale']))
             elif k == 'error_reply':
                 live = [c for c in calls if not c['done']]
                 if live:
@@ -496,7 +503,7 @@ def _run_loss(case, lose_at):
         # ---- the transport dies here
         outstanding = [c for c in calls if not c['done']]
         before = {id(c): len(c['results']) for c in calls}
-        reason = N.lost_reason()
+        reason = N.lost_reason(len(case['ops']) + lose_at)
         try:
             N.close(rig.conn, reason)
         except Exception as e:
@@ -583,6 +590,8 @@ def classify_loss(case):
         labels.append('timeout_zero')
     if any(o[0] == 'call_sync' for o in ops):
         labels.append('synchronous_reply')
+    if any(o[0] == 'stale_reply' for o in ops):
+        labels.append('reply_nobody_waits_for')
     if any(o[0] == 'close_req' for o in ops):
         labels.append('close_requested_first')
     return ('call_with_timer' in labels or 'proxy_callback' in labels), sorted(set(labels))
@@ -596,7 +605,7 @@ def loss_case(draw, tier):
     for _ in range(n):
         k = draw(st.sampled_from(['call', 'call', 'reply', 'error_reply', 'conn_cb', 'conn_cb_cancel', 'proxy', 'proxy', 'proxy_cb',
                                   'proxy_cb', 'proxy_cb_cancel', 'proxy_signal', 'advance', 'cancel_call', 'call_noreply',
-                                  'call_sync', 'close_req' if draw(st.integers(0, 2)) == 0 else 'call_sync']))
+                                  'call_sync', 'close_req' if draw(st.integers(0, 2)) == 0 else 'call_sync', 'stale_reply']))
         if k == 'call':
             if ncalls >= 4:
                 continue
@@ -610,7 +619,7 @@ def loss_case(draw, tier):
             ops.append(['advance', draw(st.sampled_from([1, 4, 6, 30]))])
         elif k in ('call_noreply', 'call_sync'):
             ops.append([k, draw(st.sampled_from([None, 5, 0, 30]))])
-        elif k in ('reply', 'error_reply', 'conn_cb_cancel', 'proxy_cb', 'proxy_cb_cancel', 'proxy_signal', 'cancel_call'):
+        elif k in ('reply', 'error_reply', 'conn_cb_cancel', 'proxy_cb', 'proxy_cb_cancel', 'proxy_signal', 'cancel_call', 'stale_reply'):
             ops.append([k, draw(st.integers(0, 5))])
         else:
             ops.append([k])
@@ -625,6 +634,10 @@ def enum_loss(tier):
                        ['proxy_cb', 0], ['proxy_cb_cancel', 1]]}
     yield {'ops': [['call', None], ['call', 5], ['call', 20], ['call', 1], ['advance', 4], ['reply', 0], ['conn_cb'],
                    ['conn_cb'], ['conn_cb_cancel', 0]]}
+    # replies nobody waits for (unsolicited, late after a timeout, duplicate), then more calls, then the loss
+    yield {'ops': [['stale_reply', 0], ['call', 30], ['call', None], ['conn_cb']]}
+    yield {'ops': [['call', 1], ['advance', 4], ['stale_reply', 0], ['call', 30], ['call', None]]}
+    yield {'ops': [['call', None], ['reply', 0], ['stale_reply', 0], ['call', 5], ['call', None], ['conn_cb']]}
     # fire-and-forget calls with and without a deadline next to ordinary ones
     yield {'ops': [['call_noreply', 5], ['call', 10], ['call_noreply', None], ['call_noreply', 30], ['conn_cb']]}
     # the caller cancels pending calls (with and without deadline) before the connection goes down
